@@ -39,7 +39,7 @@ CLAIMED.update({
    text='Theorems c11_dispatch_requires, c11_commands (eta >= now + delay, no reschedule), c11_callback, c11_cancel_kills, c11_cancelled_stays_cancelled (induction over arbitrary operation lists = all interleavings of dispatch, target call, callback and other transactions), c11_dead_no_dispatch; exclusion (Proofs/GovExcl.v): c11_never_scheduled_and_in_flight, c11_exclusion_reachable, c11_callback_restores_only_onto_empty, c11_eta_changes_only_by; counting over whole histories (Proofs/GovCount.v): c11_eta_potential and c11_pending_potential (all nine operation kinds) give c11_one_success_per_scheduling (successful dispatches of a proposal <= accepted schedulings of it, for every history and schedule) and c11_accepts_bounded; c11_unrepaired_refuted exhibits the history on which the source before the fix: commit violated the property. The real contracts are compared step by step with the model and a monitor re-checks the property on the implementation trace. c11_command_traces_to_batch: the authentication of a scheduling command, end to end (Proofs/GovGwOrigin.v).',
    note='Trusted: Coq kernel; hand-written model of governance+gateway tied by the correspondence; external target abstracted to an outcome; gas not modelled. Genuine defect F-C11-1 repaired by a fix: commit (known_findings.json).'),
  'C12': dict(section='8/C12', technique='Coq proof (authenticated-command precondition with gateway consumption, no replay, table frame for every other operation, operator dispatch/approval algebra for all schedules, operator and funds gates) + differential correspondence + trace monitors',
-   text='Theorems c12_execute_requires, c12_no_replay, c12_tables_frame, c12_operator_dispatch, c12_operator_callback, c12_cancelled_approval_stays_cancelled, c12_deadop_no_dispatch, c12_operator_change, c12_withdraw_self_only. Counting (Proofs/GovCountOp.v): c12_approval_potential, c12_one_success_per_approval (successful operator dispatches <= accepted approvals, for every history). End to end (Proofs/GovGwOrigin.v): c12_gateway_projection, c12_command_traces_to_batch (an accepted command traces back to an approveMessages transaction of the same history naming exactly this command), c12_end_to_end_nonvacuous.',
+   text='Theorems c12_execute_requires, c12_no_replay, c12_tables_frame, c12_operator_dispatch, c12_operator_callback, c12_cancelled_approval_stays_cancelled, c12_deadop_no_dispatch, c12_operator_change, c12_withdraw_self_only, c12_approval_changes_only_by, c12_eta_changes_only_by, c12_callback_restores_approval_only_in_flight (Proofs/GovExcl.v). Counting (Proofs/GovCountOp.v): c12_approval_potential, c12_one_success_per_approval (successful operator dispatches <= accepted approvals, for every history). End to end (Proofs/GovGwOrigin.v): c12_gateway_projection, c12_command_traces_to_batch (an accepted command traces back to an approveMessages transaction of the same history naming exactly this command), c12_end_to_end_nonvacuous.',
    note='Trusted: as C11. Genuine defect F-C12-1 repaired by the same fix: commit.'),
  'C16': dict(section='8/C16', technique='Coq proof (credit arithmetic per token incl. repeated tokens, callback credits under any schedule, withdrawal exactness, frame) + differential correspondence + trace monitor',
    text='Theorems c16_credit, c16_callback_credits, c16_withdraw, c16_frame; histories (Proofs/GovCredits.v): c16_credits_step (all 9 operation kinds) and c16_credits_history (for EVERY history and schedule: outstanding credit of (caller, token, nonce) = initial + attached to failed dispatches by that caller - withdrawn by that caller), c16_withdrawn_owner_only.',
